@@ -155,7 +155,7 @@ SNIPPETS = [
     ({'x': 'dos'}, "r = x is not None and x not in ('dos', 'unix')"),
     ({'x': b'#.change:\n'}, "r = x.decode('ascii').strip()", 'weak-symbolic'),
     ({'n': 4}, "r = '.' * n + 'meta'"),
-    ({'x': '..meta'}, "r = len(x) - len(x.lstrip('.'))", 'unsupported'),
+    ({'x': '..meta'}, "r = len(x) - len(x.lstrip('.'))"),
     # --- aliasing / heap (what C18 / C19 rest on) --------------------------
     ({'n': 7}, "a = [1]\nb = a\nb.append(n)\nr = a"),
     ({'n': 7}, "a = {'k': [1]}\nb = a.copy()\nb['k'].append(n)\nb['j'] = 0\nr = (a['k'], len(a))"),
@@ -195,7 +195,18 @@ SNIPPETS = [
     ({'x': b'abc'}, "r = x.startswith(b'b', 1)", 'unsupported'),
     ({'x': 'ff'}, "r = int(x, 16)", 'unsupported'),
     ({'x': 'café'}, "r = x.encode('ascii', 'replace')", 'unsupported'),
-    ({'x': b'  a '}, "r = x.strip(b' ')", 'unsupported'),
+    ({'x': b'  a '}, "r = x.strip(b' ')"),
+    ({'x': b'ab\n\n'}, "r = x.rstrip(b'\\n')"),
+    ({'x': b'ab\r\n'}, "r = x.rstrip(b'\\r\\n')"),
+    ({'x': b'a\nb'}, "r = x.rstrip(b'\\n')"),
+    ({'x': b'\n\n'}, "r = x.rstrip(b'\\n')"),
+    ({'x': '..meta'}, "r = x.lstrip('.')"),
+    ({'x': ' a \t'}, "r = x.rstrip()"),
+    ({'x': '12'}, "r = x.isdigit()"),
+    ({'x': '-12'}, "r = x.isdigit()"),
+    ({'x': ''}, "r = x.isdigit()"),
+    ({'x': b'12'}, "r = x.isdigit()"),
+    ({'x': '٣'}, "r = x.isdigit()", 'weak'),
     # --- exceptions, with, finally -----------------------------------------
     ({'n': 1},
      "try:\n    raise DiffXParseError('m', linenum=n)\nexcept BaseDiffXError as e:\n    r = e.linenum"),
